@@ -57,6 +57,46 @@ func H_C17_wrapraw(v *V) {
 	v.Assert(len(o) >= 0, "wrapping returns")
 }
 
+type c17Tuning struct {
+	W string `long:"congestion-window-size-in-segments" description:"DESCW"`
+}
+type c17Internal struct {
+	T c17Tuning `group:"Tuning"`
+	I bool      `long:"int" description:"DESCI"`
+}
+
+// H_C17_nested: hidden / visible group nesting must never make help panic.
+func H_C17_nested(v *V) {
+	type decl struct {
+		V   bool        `short:"v" long:"verbose" description:"DESCV"`
+		Int c17Internal `group:"Internal"`
+	}
+	d := &decl{}
+	p := NewNamedParser("prog", None)
+	p.AddGroup("Application Options", "", d)
+	if v.Choice(2) == 1 {
+		p.Group.Find("Internal").Hidden = true
+	}
+	if v.Choice(2) == 1 {
+		p.Group.Find("Tuning").Hidden = true
+	}
+	if v.Choice(2) == 1 {
+		p.FindOptionByLongName("int").Hidden = true
+	}
+	v.TermWidth(v.Shape("width"))
+	p.ParseArgs([]string{})
+	var buf bytes.Buffer
+	p.WriteHelp(&buf)
+	out := buf.String()
+	v.Reach("rendered")
+	v.ObserveStr("help", out)
+	cv, cw := c17Column(out, "DESCV"), c17Column(out, "DESCW")
+	v.Assert(cv >= 0, "the visible option is described")
+	if cw >= 0 {
+		v.Assert(cv == cw, "all option descriptions start in one common column")
+	}
+}
+
 type c17L struct {
 	A   bool   `short:"a" long:"alpha" description:"DESCA is a long description that wraps around"`
 	B   string `long:"beta" description:"DESCB" value-name:"VAL" choice:"x" choice:"y"`
@@ -157,4 +197,5 @@ func init() {
 	vHarnesses["H_C17_wrap"] = H_C17_wrap
 	vHarnesses["H_C17_wrapraw"] = H_C17_wrapraw
 	vHarnesses["H_C17_layout"] = H_C17_layout
+	vHarnesses["H_C17_nested"] = H_C17_nested
 }
